@@ -135,6 +135,19 @@ LayoutsOK(m, o) == /\ \A i \in DOMAIN o.maps : ToSet(o.maps[i]) = ToSet(o.maps[1
                    /\ {p[1] : p \in ToSet(o.maps[1])} = DOMAIN m
                    /\ \A i \in DOMAIN o.maps : Cardinality(ToSet(o.maps[i])) = Len(o.maps[i])
 
+\* ---- rank regime of C05: any weighting model --------------------------------------------------
+\* o.full = the code's own exhaustive ranking [[doc, score rank]..] (scores interned to ranks, higher = better),
+\* o.hits = what search(limit = o.k) returned.  The exhaustive ranking lists exactly the matching documents, best
+\* first (document order on ties), and a limited search returns its first k entries.
+TopPrefixOK(m, o) ==
+  LET n == Len(o.full)
+      pre == IF o.k >= n THEN o.full ELSE SubSeq(o.full, 1, o.k)
+  IN /\ {o.full[i][1] : i \in DOMAIN o.full} = DOMAIN m
+     /\ n = Cardinality(DOMAIN m)
+     /\ \A i \in 1 .. n - 1 : \/ o.full[i][2] > o.full[i + 1][2]
+                              \/ (o.full[i][2] = o.full[i + 1][2] /\ o.full[i][1] < o.full[i + 1][1])
+     /\ [i \in DOMAIN o.hits |-> <<o.hits[i][1], o.hits[i][2]>>] = [i \in DOMAIN pre |-> <<pre[i][1], pre[i][2]>>]
+
 Expected(idx, m, q, o) ==
   CASE o.kind = "ids" -> [ids |-> Ids(m)]
     [] o.kind = "layouts" -> [same_in_every_layout |-> TRUE, documents |-> Ids(m)]
@@ -149,6 +162,8 @@ Expected(idx, m, q, o) ==
     [] o.kind = "suggest" -> SuggestFacts(idx, o)
     [] o.kind = "correct" -> CorrectFacts(idx, o)
     [] o.kind = "atleast" -> [n |-> Cardinality(DOMAIN m)]
+    [] o.kind = "topprefix" -> [matching_documents |-> Ids(m),
+                                prefix_of_the_exhaustive_ranking |-> IF o.k >= Len(o.full) THEN o.full ELSE SubSeq(o.full, 1, o.k)]
 
 ObsOK(idx, m, q, o) ==
   CASE o.kind = "ids" -> o.ids = Ids(m)
@@ -159,6 +174,7 @@ ObsOK(idx, m, q, o) ==
     [] o.kind = "termstats" -> LET S == TermStats(idx, o.f, o.t) IN
          /\ o.n = S.n /\ o.df = S.df /\ o.cf4 = S.cf4 /\ o.totlen = S.totlen /\ o.docs = S.docs
     [] o.kind = "count" -> o.n = Cardinality(DOMAIN m)
+    [] o.kind = "topprefix" -> TopPrefixOK(m, o)
     [] o.kind = "error" -> FALSE      \* a search of a well-formed query never raises
     [] o.kind = "correct" -> LET F == CorrectFacts(idx, o) IN
          F.one_term_per_word /\ F.words_corrected_as_specified /\ F.string_agrees_with_query
